@@ -9,8 +9,13 @@ import (
 // Value pools are pairwise disjoint and contain no blanks, so a value
 // identifies its key and row/column labels can be compared as value sets.
 var (
-	CfgKeys = []string{"goos", "goarch", "pkg", "commit", "note"}
+	// "rev" and "sub" have values whose concatenations collide ("r1"+"2x" ==
+	// "r12"+"x") although the tuples differ (seeding round 2: key interning
+	// that trusts a separator-free hash).
+	CfgKeys = []string{"goos", "goarch", "pkg", "commit", "note", "rev", "sub"}
 	CfgVals = map[string][]string{
+		"rev":    {"r1", "r12"},
+		"sub":    {"2x", "x"},
 		"goos":   {"linux", "darwin"},
 		"goarch": {"amd64", "arm64"},
 		"pkg":    {"p/a", "p/b"},
@@ -219,7 +224,7 @@ func Gen(r *kit.Rand, o Opts) *Case {
 	return c
 }
 
-var specificKeys = []string{".name", ".file", "/size", "/fmt", "/gomaxprocs", "goos", "goarch", "pkg", "commit", "note"}
+var specificKeys = []string{".name", ".file", "/size", "/fmt", "/gomaxprocs", "goos", "goarch", "pkg", "commit", "note", "rev", "sub"}
 
 func poolOf(key string) []string {
 	switch key {
